@@ -185,7 +185,15 @@ impl Model for EntModel {
     }
 
     fn project(&self) -> Value {
-        json!({"pubs": self.live[0], "subs": self.live[1], "topics": self.live[2], "writers": self.live[3], "readers": self.live[4], "cfts": self.live[5]})
+        // what the real entities answer (an entity that still exists answers get_qos, a deleted one AlreadyDeleted), not the
+        // harness' own bookkeeping: an operation that must change nothing is seen to change nothing
+        let alive = |ok: bool| ok;
+        let pubs: Vec<bool> = self.pubs.iter().map(|x| alive(run(x.get_qos()).is_ok())).collect();
+        let subs: Vec<bool> = self.subs.iter().map(|x| alive(run(x.get_qos()).is_ok())).collect();
+        let topics: Vec<bool> = self.topics.iter().map(|x| alive(run(x.get_qos()).is_ok())).collect();
+        let writers: Vec<bool> = self.writers.iter().map(|x| alive(run(x.get_qos()).is_ok())).collect();
+        let readers: Vec<bool> = self.readers.iter().map(|x| alive(run(x.get_qos()).is_ok())).collect();
+        json!({"pubs": pubs, "subs": subs, "topics": topics, "writers": writers, "readers": readers, "cfts": self.live[5]})
     }
 
     fn compare_result(&self, op: &Value, got: &Value) -> Option<String> {
@@ -195,8 +203,26 @@ impl Model for EntModel {
         crate::replay::compare(&op["expect"], got, "expect")
     }
 
-    fn compare_state(&self, _expected: &Value, _got: &Value) -> Option<String> {
-        // the harness' own bookkeeping of live entities follows the results; nothing independent to compare
+    fn compare_state(&self, expected: &Value, got: &Value) -> Option<String> {
+        if self.deleted_participant {
+            return None;
+        }
+        for kind in ["pubs", "subs", "writers", "readers"] {
+            if let Some(d) = crate::replay::compare(&expected[kind], &got[kind], &format!("state.{kind}")) {
+                return Some(d);
+            }
+        }
+        // a deleted topic whose name is in use again answers through the newer topic (recorded finding, judged at the operations
+        // on it): only the topics the specification holds alive are compared
+        let (e, g) = (expected["topics"].as_array().cloned().unwrap_or_default(), got["topics"].as_array().cloned().unwrap_or_default());
+        if e.len() != g.len() {
+            return Some(format!("state.topics: expected {} topics, got {}", e.len(), g.len()));
+        }
+        for (k, (x, y)) in e.iter().zip(g.iter()).enumerate() {
+            if x == true && y != true {
+                return Some(format!("state.topics[{k}]: expected alive, the topic answers AlreadyDeleted"));
+            }
+        }
         None
     }
 }
